@@ -14,6 +14,7 @@ func init() {
 		Title: "The documented concurrent API is free of data races, deadlocks and panics",
 		Fn:    checkC09,
 		Explanation: "A static race/deadlock discipline check specialised to zap's synchronisation idioms: (1) guarded-by: every access to the state behind each zap mutex (BufferedWriteSyncer.mu, ObservedLogs.mu, sinkRegistry.mu, _globalMu, _encoderMutex; lockedWriteSyncer in C13) holds that mutex in the required mode on every path; (2) once-publication: every field stored inside a sync.Once closure is read only after the Do wrapper on every path, in every method of the type's method set including promoted ones; (3) immutability after construction: every store to a field of the shared, lock-free types (Logger, cores, handler, adapter) goes to an object allocated in the same function or to the argument of an option closure whose appliers all pass a fresh clone; (4) atomics: sampler counters are sync/atomic values never copied; (5) no channel operation or WaitGroup wait while a zap mutex is held, no call that re-acquires a mutex already held, no nested acquisition (lock-order graph empty); (6) encoders' EncodeEntry/Clone do not store through the receiver. " +
+			"Also decided: package-level maps and slices are written only while the package initialises or with a lock held, also through helpers that write into a table parameter. " +
 			"NOT decided: races inside user sinks/hooks/marshalers, the Go runtime and sync.Pool, panics other than the specific sources covered by C01/C03/C10/C11, actual schedules.",
 		Assumptions: commonAssumptions,
 	}
